@@ -609,6 +609,8 @@ func (h *harness) collect(rr *realRun) (out []*metricOut, err error) {
 			mo := &metricOut{name: m.Name, desc: m.Description, points: map[string]realPoint{}}
 			if !extractNum[int64](m.Data, mo) && !extractNum[float64](m.Data, mo) {
 				mo.form = fmt.Sprintf("%T", m.Data)
+			} else if mo.n == 0 {
+				continue // a metric without data points reports nothing: not judged
 			}
 			out = append(out, mo)
 		}
@@ -685,7 +687,11 @@ func compareOne(mo *metricOut, ms *mStream, exp map[string]expPoint) (string, st
 	switch form {
 	case "sum":
 		if rv != ev {
-			return "conservation", fmt.Sprintf("total over all reported points is %d, total of the measurements is %d", rv, ev)
+			what := "total of the measurements"
+			if d.sem == semPreSum && ms.delta {
+				what = "total of the observed values minus what the same sets reported in the preceding collection"
+			}
+			return "conservation", fmt.Sprintf("total over all reported points is %d, %s is %d", rv, what, ev)
 		}
 	case "histogram", "exponential-histogram":
 		if rc != ec {
@@ -1128,6 +1134,16 @@ func TestVerifC12(t *testing.T) {
 						c := &runCfg{kind: kind, delta: parts[2] == "delta", limit: l, float: fl, obsPath: p}
 						h.enumerate("limit/"+c.tag(), c, ml, maxCollects)
 					}
+				}
+			}
+			if thorough {
+				// the same with the empty attribute set as a seventh symbol, one event shorter
+				hz := newHarness(r, universe(true))
+				r.Bound("limit/attribute_universe_second_pass", len(hz.u))
+				r.Bound("limit/max_sequence_length_second_pass", maxLen-1)
+				for _, l := range limits {
+					c := &runCfg{kind: kind, delta: parts[2] == "delta", limit: l}
+					hz.enumerate("limit-with-empty-set/"+c.tag(), c, maxLen-1, maxCollects)
 				}
 			}
 		case "view":
